@@ -167,7 +167,14 @@ impl<'a> Gen<'a> {
         if !vars.is_empty() && self.rng.chance(1, 4) { return self.rng.pick(&vars).name.clone(); }
         match ty {
             Ty::Bool => match self.rng.below(9) {
-                0 | 1 => { let t = self.int_ty(); let op = *self.rng.pick(&["<", ">", "<=", ">=", "==", "!="]); format!("({} {op} {})", self.expr(&t, d), self.expr(&t, d)) }
+                0 | 1 => {
+                    let t = self.int_ty();
+                    let op = *self.rng.pick(&["<", ">", "<=", ">=", "==", "!="]);
+                    // in effects mode an operand may be a parenthesised block with an effect (evaluated exactly once)
+                    let l = self.operand_maybe_effect(&t, d);
+                    let r = self.operand_maybe_effect(&t, d);
+                    format!("({l} {op} {r})")
+                }
                 2 => format!("(!{})", self.expr(ty, d)),
                 3 => { let op = *self.rng.pick(&["&&", "||"]); format!("({} {op} {})", self.expr(ty, d), self.expr(ty, d)) }
                 4 => { let op = *self.rng.pick(&["&", "|", "^", "==", "!="]); format!("({} {op} {})", self.expr(ty, d), self.expr(ty, d)) }
@@ -253,6 +260,14 @@ impl<'a> Gen<'a> {
         self.expr(ty, d)
     }
 
+    fn operand_maybe_effect(&mut self, ty: &Ty, d: usize) -> String {
+        if self.effects_in_exprs && self.rng.chance(1, 3) {
+            let muts: Vec<Var> = self.visible().into_iter().filter(|v| v.mutable && matches!(v.ty, Ty::Int(_) | Ty::Bool)).collect();
+            if !muts.is_empty() { let b = self.block_with_effect(ty, d); if !b.contains("Sa {") { return format!("({{ {b} }})"); } }
+        }
+        self.expr(ty, d)
+    }
+
     fn branch(&mut self, ty: &Ty, d: usize) -> String {
         self.scopes.push(vec![]);
         let mut s = String::new();
@@ -273,8 +288,13 @@ impl<'a> Gen<'a> {
         self.scopes.push(vec![]);
         let mut s = String::new();
         if let Some(v) = muts.first() {
-            let e = self.expr(&v.ty.clone(), d.min(1));
-            s += &format!("{} = {e}; ", v.name);
+            // every other effect is not idempotent (flipping a bit), so evaluating the block twice is visible
+            if self.rng.bool() {
+                match &v.ty { Ty::Bool => s += &format!("{} = (!{}); ", v.name, v.name), Ty::Int(t) => s += &format!("{} = ({} ^ 1{t}); ", v.name, v.name), _ => {} }
+            } else {
+                let e = self.expr(&v.ty.clone(), d.min(1));
+                s += &format!("{} = {e}; ", v.name);
+            }
         }
         s += &self.expr(ty, d);
         self.scopes.pop();
@@ -378,7 +398,8 @@ impl<'a> Gen<'a> {
             if !self.rng.chance(2, 3) { break; }
             match cur.clone() {
                 Ty::Arr(e, n) if n > 0 => {
-                    let idx = if self.rng.chance(2, 3) { format!("{}usize", self.rng.below(n)) } else { format!("({} as usize)", self.expr(&Ty::Int("u8"), d.min(1))) };
+                    let idx = if self.effects_in_exprs && self.rng.chance(1, 3) { format!("({} as usize)", self.operand_maybe_effect(&Ty::Int("u8"), d.min(1))) }
+                              else if self.rng.chance(2, 3) { format!("{}usize", self.rng.below(n)) } else { format!("({} as usize)", self.expr(&Ty::Int("u8"), d.min(1))) };
                     text = format!("{text}[{idx}]"); cur = *e;
                 }
                 Ty::Tup(fs) => { let i = self.rng.below(fs.len()); text = format!("{text}.{i}"); cur = fs[i].clone(); }
